@@ -1,7 +1,7 @@
 """C16 part 3: the stream reassembly buffer (s2n_quic_core::buffer::Reassembler) vs the reference buffer."""
 from vlib import *
 
-PROP_MODULES = ["QuicProofs.Props.C16Reassembler"]
+PROP_MODULES = ["QuicProofs.Props.C16Reassembler", "QuicProofs.Props.C16SlotBuf"]
 BRIDGES = ["QuicProofs.Bridge.Reassembler"]
 
 
@@ -26,10 +26,12 @@ def run(ctx):
         return
     if not lean_ok:
         ctx.escalated = True
-    g.diff(ctx, tier_n(ctx, 2500, 40000))
+    import gen.reassembler_slots as gs
+    thorough = ctx.tier == "thorough" or ctx.escalated
+    g.diff(ctx, tier_n(ctx, 2500, 30000), exhaustive_too=thorough)
     # second layer: Data.SlotBuf (transcription of the slot/allocation code) against the same real object,
     # compared including the chunk boundaries of every pop and report()
-    step_diff(ctx, "vh-core", "reassembler-slots", "reassembler_slots", tier_n(ctx, 1500, 20000))
+    gs.diff(ctx, tier_n(ctx, 1500, 15000), exhaustive_too=thorough)
     if ctx.tier == "thorough" or ctx.escalated:
         ctx.exhaustive = True
         ctx.extra["reassembler_exhaustive"] = (f"all op sequences of length <= 4 over {len(g.EX_FULL)} ops (6 offsets x 4 lengths, FIN variants, "
